@@ -267,7 +267,7 @@ func runCluster(c *corr.Ctx) error {
 	}
 
 	// pipeline unit cases
-	np := c.Scale(300, 6000)
+	np := c.Scale(200, 6000)
 	for i := 0; i < np; i++ {
 		cs := pipeCase(pipeSpec{Seed: c.Rng.Int63(), Steps: 6 + c.Rng.Intn(30)})
 		c.Count("pipe_cases")
@@ -275,7 +275,7 @@ func runCluster(c *corr.Ctx) error {
 	}
 
 	// cluster runs, a few at a time
-	nc := c.Scale(120, 2500)
+	nc := c.Scale(110, 2500)
 	specs := make([]runSpec, 0, nc+2)
 	specs = append(specs, runSpec{Seed: 1, Profile: "f20"}, runSpec{Seed: 1, Profile: "newleader"})
 	for i := 0; i < nc; i++ {
